@@ -594,7 +594,10 @@ func (p *PkgResolver) GetPackageWithDependencies(ctx context.Context, pkgName st
 		}
 	}
 	// are there any installIf dependencies?
-	for dep, depPkg := range added {
+	// Walk the ordered slice rather than ranging over the added map while appending to it,
+	// so that the result does not depend on map iteration order.
+	for i := 0; i < len(dependencies); i++ {
+		dep, depPkg := dependencies[i].Name, dependencies[i]
 		depPkgList, ok := p.installIfMap[dep]
 		if !ok {
 			depPkgList, ok = p.installIfMap[fmt.Sprintf("%s=%s", dep, depPkg.Version)]
